@@ -1,6 +1,6 @@
 """C16 — every connection accounted exactly once with a truthful record (sequential lifecycle part)."""
 import harness
-from specs import dispatch, lifecycle, timeouts, relay, accesslog
+from specs import dispatch, lifecycle, timeouts, relay, accesslog, replies
 
 
 def run(ck):
@@ -24,6 +24,9 @@ def run(ck):
     relay.check_handover(ck)       # early data: what the hand-over forwards is counted too
     ck.plans.append(accesslog.replay_plan)
     accesslog.spec_log_thread(ck, nevents=3 if ck.tier == 'quick' else 4)
+    # handshake-failed connections: registered, then given up before they are routed
+    replies.spec_socks_handshake(ck, lifecycle=True)
+    replies.spec_http_handshake_lifecycle(ck)
     # "with the ... source ... it actually used": the peer address every listener records (shared with C02)
     dispatch.spec_source_address_mapping(ck)
     ck.post_filter = lambda o: o.label.startswith(('C16/', 'C02/source-address/')) or o.status in ('undecided', 'vacuous', 'inconclusive')
